@@ -1161,3 +1161,77 @@ def record_sections_in_table_order(ctx, p):
                    'the %s sections of a record are written in an order fixed by the table id (sorted sequence / ordered map), so that table files are created oldest first' % what,
                    ok, '' if ok else 'the loop iterates the hash map directly: section order is arbitrary', b.loc(lp['head']))
     ctx.ob(p + 'k1 section-loops', 'anchor', b.path, 'both multi-generation section loops were found', n == 2, 'found %d' % n)
+
+
+def index_entry_purged_from_all_generations(ctx, p):
+    """While an index is being re-indexed a key has an entry in every generation its chunk was copied to (batches copy, they never
+    remove from the source). When a planned write removes the key's entry or re-points it (value moved to another tier), the copies
+    in the OTHER generations must be removed in the same plan - the ref-count sibling (write_ref_count_plan_existing) does exactly
+    that. A copy left behind points at a freed slot: it is carried over by the next batch, and a later tenant of the slot with the
+    same stored key tail is served (and overwritten) under the removed key."""
+    F = ctx.F
+    we = ctx.body('column::HashColumn::write_plan_existing')
+    if not we:
+        return
+    def purges(b):
+        """b walks the reindex queue and removes index entries inside that walk (loop form or iterator chain feeding a loop)"""
+        rm = b.call_sites('index::IndexTable::write_remove_plan')
+        if not rm:
+            return []
+        reads_q = any({'.Reindex.queue'} & lib.receiver_fields(b, t, i) for _bi, t in b.calls() for i in range(min(len(t['a']), 2)))
+        if not reads_q:
+            return []
+        heads = []
+        for lp in lib.for_loops_over(b):
+            if any(x in b.reachable_from([lp['some']], removed={lp['head']}) for x in rm) and \
+               ('.Reindex.queue' in lib.receiver_fields(b, b.term(lp['head']), 0)):
+                heads.append(lp['head'])
+        return heads
+    helpers = [b.path for b in F.bodies.values() if 'HashColumn' in b.path and b is not we and purges(b)]
+    inline = purges(we)
+    sites = list(inline) + (lib.sites_reaching(we, helpers) if helpers else [])
+    none0 = None
+    for bi in we.normal_blocks():
+        t = we.term(bi)
+        d = lib.switch_def(we, bi)
+        if t['k'] == 'switch' and d and d[2] == 'assign' and d[3]['r']['k'] == 'discr' and '.#0' in d[3]['r']['p'][1:]:
+            for v, tg in zip(t['vals'], t['ts']):
+                if v == 0:
+                    none0 = tg
+    ctx.ob(p + 'a0 entry-change-anchor', 'anchor', we.path, 'write_plan_existing branches on "the value plan settled the operation" / "the index entry has to change"', none0 is not None, '')
+    if none0 is None:
+        return
+    w = we.find_path([none0], we.return_blocks(), removed=set(sites) | core.error_exit_blocks(we)) if sites else ['?']
+    ctx.ob(p + 'a entry-purged-from-all-generations', 'K9-agreement', we.path,
+           'whenever the index entry of a key is removed or re-pointed, the plan also walks the other index generations (current index and reindex queue) and removes the copies of that entry, as the ref-count sibling does',
+           w is None, 'no walk over Reindex.queue that removes index entries is reachable from write_plan_existing' if not sites else 'success path that changes the entry without the purge: ' + lib.short_path(we, w))
+
+
+def value_read_one_guard(ctx, p, callers=None):
+    """a chained (multi-part) value is fetched part by part, each part lookup going to the log overlay first. Handing the reader the
+    RwLock flavour of LogQuery takes and releases the overlay read lock PER PART, so Log::end_record can publish a whole record
+    between two parts of one value: parts of two different values are concatenated (only the head part carries a key check).
+    Readers of values that may be chained therefore need one locked view (LogOverlays behind a read guard) for the whole value.
+    `callers`: restrict to call sites in these functions (and their closures)."""
+    F = ctx.F
+    SINGLE_PART = {'btree::btree::BTree::open': 'reads the 12-byte tree header entry, which is never chained'}
+    reach = F.may_reach('table::ValueTable::for_parts')
+    n = 0
+    for b in sorted(F.bodies.values(), key=lambda x: x.path):
+        if b.path.startswith('log::'):
+            continue
+        if callers is not None and lib.strip_closures(b.path) not in callers:
+            continue
+        for bi, t in b.calls():
+            fa = t.get('fa') or ''
+            if 'RwLock<parking_lot::RawRwLock, log::LogOverlays>' not in fa or '::<' not in fa:
+                continue
+            callee = [x for x in call_names(t) if x in F.bodies]
+            if not callee or not (callee[0] in reach or callee[0] == 'table::ValueTable::for_parts'):
+                continue
+            n += 1
+            why = SINGLE_PART.get(callee[0])
+            ctx.ob(p + 'a value-read-under-one-overlay-guard %s -> %s' % (lib.strip_closures(b.path), callee[0].split('::', 1)[-1]), 'K5-held-at', b.path,
+                   'a value that may be chained is read through ONE locked view of the log overlay, not through the RwLock flavour that locks per part' + (' [single-part: %s]' % why if why else ''),
+                   why is not None, 'reads parts under separate acquisitions of Log.overlays: a record published in between tears the value', b.loc(bi))
+    ctx.ob(p + 'b value-read-sites', 'anchor', '-', 'the value read call sites that are handed the log overlay were found', n >= 1, 'found %d' % n)
